@@ -141,6 +141,25 @@ func scenariosC04(rng *rand.Rand, thorough bool) []Scenario {
 			Script: []Event{sync, {Kind: "drop", A: 0}, {Kind: "age"}, grow(1), sync},
 			Peers:  []Behaviour{{Kind: "disconnectAt", H: 1 << 30}, honest()}})
 	}
+	// --- a header of the honest chain is too far in the future at first and valid later ---
+	{
+		// the honest tip is stamped 2 h 35 min ahead of the wall clock: refused.  Then four peers whose
+		// clocks are an hour ahead connect: with five time samples the client's adjusted time moves
+		// forward by an hour and the same header is valid.  The peers that served it while it was not
+		// are dropped (and cannot redial); the last one serves it when it is.
+		early := Behaviour{Kind: "disconnectAt", H: 1 << 30}
+		skewed := Behaviour{Kind: "disconnectAt", H: 1 << 30, SkewMin: 60}
+		add(Scenario{Name: "future-header-then-time-passes", Len: L(), FutureTipMin: 155, NoRedial: true, Deadline: 5 * time.Second,
+			Script: []Event{sleep(200)},
+			Peers:  []Behaviour{early, skewed, skewed, skewed, skewed, {Kind: "honest", SkewMin: 60}}})
+	}
+	// --- queue pressure: one peer floods junk block announcements while the honest sync peer announces a block ---
+	add(Scenario{Name: "flood-inv-then-honest-block", Len: L(), Barrier: true, NoRedial: true, Deadline: 6 * time.Second,
+		Script: []Event{sync, {Kind: "flood", A: 1, B: 4000}, {Kind: "flood", A: 2, B: 4000}, {Kind: "flood", A: 3, B: 4000},
+			{Kind: "flood", A: 4, B: 4000}, {Kind: "flood", A: 5, B: 4000}, {Kind: "flood", A: 6, B: 4000},
+			sleep(100), grow(1), {Kind: "drain", A: 1}, {Kind: "drain", A: 6}},
+		Peers: []Behaviour{honest(), {Kind: "floodInv"}, {Kind: "floodInv"}, {Kind: "floodInv"}, {Kind: "floodInv"},
+			{Kind: "floodInv"}, {Kind: "floodInv"}}})
 	return out
 }
 
